@@ -23,6 +23,16 @@ CHECKS = {
         "Sequential semantics only; alphabet-bounded (2 nodes, 2 children, 2 value types, 2 values). Trusts the harness transport (implements the public Transport ABC).",
         "5/C07",
     ),
+    "C01": ("E3", "exploration",
+        "bounded-exhaustive enumeration of messages (field grid x all payload strings <= L over an alphabet containing ';') through the real codec and a real gateway, against a reference encoder",
+        "Every message of the stated finite space is encoded, decoded and re-encoded by the real MessageSchema under all five versions and compared byte for byte with a reference encoder; set messages also go through Gateway.send and Gateway.listen.",
+        "Payload alphabet of 5 (quick) / 8 (thorough) symbols, length <= 3 / 4; boundary field grid.",
+        "5/C01"),
+    "C02": ("E3", "exploration",
+        "bounded-exhaustive enumeration of lines (full product of per-position boundary tokens, 0-8 fields) through the real decoder and Gateway.listen, against a three-valued reference acceptor",
+        "The full product of per-position token alphabets (valid/boundary/negative/huge/non-numeric/empty/padded) with 0-8 fields and several line endings, x five versions: accept/reject verdict, decoded values and the exception class are compared with a reference acceptor; rejected lines are also fed to a real Gateway.listen step.",
+        "Token alphabets per position (10/8/9/6/8 tokens thorough). Unusual int()-parsable spellings are either-accepted.",
+        "5/C02"),
     "C04": ("E1", "model_checking",
         "explicit-state model checking of the implementation (depth-bounded BFS) against a reference registry model",
         "All histories of received messages up to depth 5 (quick) / 5-6 (thorough) over a 28-36 event alphabet, per protocol version, on the real Gateway; after every transition the registry, the outcome (yield / error naming the node or child) and the consumed-line count are compared with a reference registry.",
